@@ -14,7 +14,7 @@ from vcheck.hcommon import pin, pinned, tier
 N_SYM = tier(3, 4)
 N_B = tier(1, 2)
 N_PROP = 3
-ALPH = "\\nN;,:\"%2C\r\n a"
+ALPH = "\\nN;,:\"%2C\r\n a\u2028\x85"
 BS = chr(92)
 
 
